@@ -121,7 +121,11 @@ int main(int argc, char** argv) {
     // blocks allocated during the execution that are still alive although the operation, the World and every
     // per-execution harness object are gone (the result string `rec` is the only survivor: 1 block at most)
     int heap = heapacct::n - (rec.capacity() > 15 ? 1 : 0);
-    vrt::ev("{\"e\":\"End\",\"live\":%zu,\"bad\":%zu,\"heap\":%d,\"root\":%d}", live, bad, heap, root);
+    int asr = 0;
+#if !UNIFEX_NO_ASYNC_STACKS
+    asr = unifex::tryGetCurrentAsyncStackRoot() != nullptr ? 1 : 0;
+#endif
+    vrt::ev("{\"e\":\"End\",\"live\":%zu,\"bad\":%zu,\"heap\":%d,\"root\":%d,\"asr\":%d}", live, bad, heap, root, asr);
     std::fprintf(out, "%s\n", rec.c_str());
     std::fprintf(out, "{\"x\":%ld,\"heap\":%d}\n", x, heap);
     ++ran;
